@@ -220,6 +220,8 @@ struct World<'a, C: Crypto> {
     fabs: &'a [FabInfo],
     /// unique ids of the sessions installed by `s` ops (everything else was created by the code under test)
     installed: Vec<u32>,
+    /// fabrics declared by `f` ops of this case
+    declared: Vec<u64>,
     /// unique session id -> ordinal of first appearance in this case
     ords: HashMap<u32, usize>,
     senders: HashMap<String, Session>,
@@ -249,6 +251,7 @@ impl<'a, C: Crypto> World<'a, C> {
             group::clear_groups(self.matter, f);
         }
         self.installed.clear();
+        self.declared.clear();
         self.ords.clear();
         self.senders.clear();
         self.sender_sid.clear();
@@ -295,12 +298,18 @@ impl<'a, C: Crypto> World<'a, C> {
 
     fn fab(&self, m: &HashMap<String, String>) -> Option<(u64, FabInfo)> {
         let no = num(m, "f");
+        if !self.declared.contains(&no) {
+            return None;
+        }
         self.fabs.get(no as usize).map(|f| (no, *f))
     }
 
     fn op_f(&mut self, no: &str) -> String {
         match no.parse::<usize>().ok().and_then(|n| self.fabs.get(n)) {
-            Some(f) => format!("ok idx={} node={:x} cfid={:x}", f.fab_idx, f.node, f.cfid),
+            Some(f) => {
+                self.declared.push(no.parse().unwrap_or(0));
+                format!("ok idx={} node={:x} cfid={:x}", f.fab_idx, f.node, f.cfid)
+            }
             None => "err NoFabric".into(),
         }
     }
@@ -398,7 +407,7 @@ impl<'a, C: Crypto> World<'a, C> {
         let mut out = "ok".to_string();
         if let Some(gk) = m.get("gk") {
             let (fno, k) = gk.split_once(':').unwrap_or(("0", "0"));
-            let Some(f) = fno.parse::<usize>().ok().and_then(|n| self.fabs.get(n)) else {
+            let Some(f) = fno.parse::<u64>().ok().filter(|n| self.declared.contains(n)).and_then(|n| self.fabs.get(n as usize)) else {
                 return "err NoFabric".into();
             };
             match group::derive(self.crypto, &key(k.parse().unwrap_or(0)), f.cfid) {
@@ -1437,6 +1446,7 @@ fn world<'a, C: Crypto>(matter: &'a Matter<'a>, crypto: &'a C, fabs: &'a [FabInf
         crypto,
         fabs,
         installed: vec![],
+        declared: vec![],
         ords: HashMap::new(),
         senders: HashMap::new(),
         sender_sid: HashMap::new(),
